@@ -176,4 +176,54 @@ func init() {
 			return bp
 		},
 	})
+
+	// (4) The minimum proposal deposit is raised, then lowered, by passed proposals while
+	// other proposals -- submitted under the previous minimum -- are still open and close
+	// later (passed -> refund of the RECORDED deposit, no votes -> discarded into the common pool).
+	scripts = append(scripts, &script{
+		name: "govdeposit", blocks: 22,
+		knobs: func(k *knobs) { baseKnobs(k); k.VotingPeriod = 2 },
+		block: func(w *world, b int) *blockPlan {
+			g := w.g
+			bp := &blockPlan{proposer: b % len(w.props), votes: muxdrv.VotesAll, votesTag: "all"}
+			local := map[staking.Address]uint64{}
+			fee := muxdrv.Fee(21, muxdrv.DefaultGas)
+			govChange := func(k *muxdrv.Key, min uint64, title string) genTx {
+				ch := governance.ConsensusParameterChanges{MinProposalDeposit: quantity.NewFromUint64(min)}
+				tx := governance.NewSubmitProposalTx(w.nextNonce(k, local), fee, &governance.ProposalContent{
+					Metadata:         &governance.ProposalMetadata{Title: title},
+					ChangeParameters: &governance.ChangeParametersProposal{Module: governance.ModuleName, Changes: cbor.Marshal(ch)},
+				})
+				return genTx{raw: muxdrv.Sign(k, tx), kind: "submit_change_params"}
+			}
+			plain := func(k *muxdrv.Key, v uint64) genTx {
+				return genTx{raw: muxdrv.Sign(k, muxdrv.TxSubmitChangeParams(w.nextNonce(k, local), fee, v)), kind: "submit_change_params"}
+			}
+			yes := func(id uint64) {
+				for _, v := range g.Validators {
+					bp.txs = append(bp.txs, genTx{raw: muxdrv.Sign(v.Entity, muxdrv.TxCastVote(w.nextNonce(v.Entity, local), fee, id, governance.VoteYes)), kind: "cast_vote"})
+				}
+			}
+			a := g.Accounts
+			switch b {
+			case 0: // epoch 1: proposal 1 raises the minimum deposit 100 -> 1000 (closes at epoch 3)
+				bp.txs = append(bp.txs, govChange(a[1].Key, 1000, "raise min deposit"))
+			case 1:
+				yes(1)
+			case 5: // epoch 2: proposals 2 (will pass) and 3 (no votes) under the OLD minimum (close at epoch 4)
+				bp.txs = append(bp.txs, plain(a[2].Key, 11), plain(a[3].Key, 12))
+			case 6:
+				yes(2)
+			case 8: // epoch 3: proposal 1 has passed; proposal 4 lowers the minimum 1000 -> 10 (deposit 1000, closes at 5)
+				bp.txs = append(bp.txs, govChange(a[1].Key, 10, "lower min deposit"))
+			case 9:
+				yes(4)
+			case 11: // epoch 4: proposals 5 (will pass) and 6 (no votes) under the minimum 1000 (close at epoch 6)
+				bp.txs = append(bp.txs, plain(a[2].Key, 13), plain(a[3].Key, 14))
+			case 12:
+				yes(5)
+			}
+			return bp
+		},
+	})
 }
